@@ -233,3 +233,161 @@ def _containment_ob(pos):
 
 for _p in POSITIONS:
     _containment_ob(_p)
+
+
+# ---------------------------------------------------------------------------------------
+# O2: "never hangs" — no regular expression FORD applies to source lines has an unbounded loop whose body is ambiguous (one iteration can
+# also be read as two or more) AND that is followed by something that can fail: that is what makes a backtracking matcher exponential
+# ---------------------------------------------------------------------------------------
+def _patterns():
+    import re
+    import ford.sourceform as sf, ford.reader as rd, ford.utils as fu, ford.fixed2free2 as ff, ford.md_admonition as ma
+    out = []
+    for mod in (sf, rd, fu, ff, ma):
+        for k, v in vars(mod).items():
+            if isinstance(v, re.Pattern):
+                out.append((f"{mod.__name__}.{k}", v))
+            if isinstance(v, type) and v.__module__ == mod.__name__:
+                for ck, cv in vars(v).items():
+                    if isinstance(cv, re.Pattern):
+                        out.append((f"{mod.__name__}.{k}.{ck}", cv))
+    # patterns compiled per reader from the configured marks
+    try:
+        out.append(("ford.reader._compile_docmark('!')", rd._compile_docmark("!")))
+    except Exception:  # noqa
+        pass
+    return out
+
+
+def _ambiguous_loops(pat):
+    """[(body language, prefix language)] of unbounded loops that have a failing continuation"""
+    import re
+    import re._parser as sp
+    import re._constants as sc
+    from fv import rx
+
+    ic = bool(pat.flags & re.I)
+    found = []
+
+    def required(op, arg):
+        n = str(op)
+        if n == "AT":
+            return str(arg) in ("AT_END", "AT_END_STRING")
+        if n in ("ASSERT", "ASSERT_NOT"):
+            return True
+        try:
+            return sp.SubPattern(tree.state, [(op, arg)]).getwidth()[0] > 0
+        except Exception:  # noqa
+            return True
+
+    def walk(items, prefix, tail):
+        items = list(items)
+        for i, (op, arg) in enumerate(items):
+            n = str(op)
+            my_tail = tail or any(required(o, a) for o, a in items[i + 1:])
+            try:
+                pre = rx._seq(items[:i], ic, rx.EPS)
+                pre = z3.Concat(prefix, pre)
+            except Exception:  # noqa
+                pre = None
+            if n in ("MAX_REPEAT", "MIN_REPEAT"):
+                lo, hi, sub = arg
+                if hi == sc.MAXREPEAT and my_tail:
+                    try:
+                        found.append((rx._seq(sub, ic, rx.EPS), pre))
+                    except Exception:  # noqa - anchors / look-around inside the loop: not encodable, skipped (stated)
+                        pass
+                walk(sub, pre if pre is not None else prefix, True if hi == sc.MAXREPEAT else my_tail)
+            elif n == "SUBPATTERN":
+                walk(arg[3], pre if pre is not None else prefix, my_tail)
+            elif n == "BRANCH":
+                for a in arg[1]:
+                    walk(a, pre if pre is not None else prefix, my_tail)
+    tree = sp.parse(pat.pattern, pat.flags)
+    walk(list(tree), rx.EPS, False)
+    return found
+
+
+def _timing(pat, attack_of, ks=(10, 14, 18, 22, 26), cap=2.0):
+    import signal
+    import time
+
+    class Timeout(Exception):
+        pass
+
+    def handler(sig, frm):
+        raise Timeout()
+    times = []
+    old = signal.signal(signal.SIGALRM, handler)
+    try:
+        for k in ks:
+            s = attack_of(k)
+            t0 = time.time()
+            signal.setitimer(signal.ITIMER_REAL, cap)
+            try:
+                pat.search(s)
+                pat.match(s)
+                times.append(round(time.time() - t0, 3))
+            except Timeout:
+                times.append(None)
+                break
+            finally:
+                signal.setitimer(signal.ITIMER_REAL, 0)
+    finally:
+        signal.signal(signal.SIGALRM, old)
+    return times
+
+
+def replay_redos(w):
+    pats = dict(_patterns())
+    pat = pats.get(w["pattern"])
+    if pat is None:
+        return False, {"pattern": w["pattern"], "note": "pattern no longer exists"}
+    pre, chunk = w["prefix"], w["chunk"]
+    times = _timing(pat, lambda k: pre + chunk * k + "\\x00")
+    blow = times[-1] is None or (len(times) >= 2 and times[-1] and times[-1] > 0.5)
+    return blow, {"pattern": w["pattern"], "regex": pat.pattern[:120], "input": repr(pre) + " + " + repr(chunk) + "*k + NUL",
+                  "seconds for k = 10, 14, 18, 22, 26 (None = stopped after 2 s)": times}
+
+
+@obligation("C20", "O2.no-catastrophic-backtracking", engine="RX", timeout=900)
+def redos(ctx):
+    """every compiled regular expression of ford.sourceform / reader / utils / fixed2free2 / md_admonition: for each unbounded loop that is
+    followed by something that can fail, no non-empty string is both ONE iteration of the body and TWO OR MORE iterations (z3 regex
+    query; such an ambiguity makes CPython's backtracking matcher exponential on a non-matching line, i.e. FORD would hang)"""
+    from fv import rx
+
+    pats = _patterns()
+    nloops = 0
+    for name, pat in pats:
+        ctx.encode_re(name, pat)
+        try:
+            loops = _ambiguous_loops(pat)
+        except Exception as e:  # noqa
+            ctx.outside.append(f"{name}: not analysable ({type(e).__name__})")
+            continue
+        for bi, (body, pre) in enumerate(loops):
+            nloops += 1
+            w, pfx = z3.String("w"), z3.String("p")
+            ne = z3.Intersect(body, z3.Plus(rx.DOT))
+            cons = [z3.InRe(w, ne), z3.InRe(w, z3.Concat(ne, z3.Plus(ne))), z3.Length(w) <= 6]
+            if pre is not None:
+                cons += [z3.InRe(pfx, pre), z3.Length(pfx) <= 12]
+            r, m = ctx.solve(f"{name} loop {bi}: one iteration = several iterations?", cons, timeout_s=20, want=None)
+            if r == "sat":
+                chunk = rx.z3str_to_py(m.eval(w, model_completion=True).as_string())
+                prefix = rx.z3str_to_py(m.eval(pfx, model_completion=True).as_string()) if pre is not None else ""
+                ok = ctx.report(f"{name}: ambiguous unbounded loop with a failing continuation (exponential backtracking)",
+                                {"pattern": name, "chunk": chunk, "prefix": prefix}, replay_redos)
+                if not ok:
+                    # ambiguity without measurable blow-up (e.g. the continuation cannot fail on this input): not a violation
+                    ctx.mismatches.pop()
+                    ctx.outside.append(f"{name}: ambiguous loop body {chunk!r} but no blow-up measured")
+            elif r == "unknown":
+                ctx.outside.append(f"{name} loop {bi}: solver gave no answer within 20 s")
+    ctx.bounds.update({"patterns": len(pats), "unbounded loops with a failing continuation": nloops, "witness length": "<= 6 per iteration"})
+    if nloops >= 20:
+        ctx.twins += 1
+    else:
+        ctx.inconclusive.append(f"only {nloops} loops analysed: the pattern walk needs review")
+    ctx.sample({"patterns": len(pats), "loops": nloops})
